@@ -559,9 +559,9 @@ def child(job):
 
 # --------------------------------------------------------------------------- parent
 
-def make_jobs(ctx, n_prog, depth):
+def make_jobs(ctx, n_prog, depth, first=0):
     jobs = []
-    for i in range(n_prog):
+    for i in range(first, first + n_prog):
         g = universe.Gen(ctx.rng, universe.Cfg(max_depth=depth, unions="any"))
         prog = g.program(tag=f"c05_{i}")
         roots = adversarial(g, depth)
@@ -726,11 +726,16 @@ def explore(ctx):
     res = Result()
     res.rule = RULE
     depth = 3 if ctx.tier == "quick" else 4
-    n = ctx.n(90, 1500)
+    n = ctx.n(90, 1200)
     core.import_typelib()
-    jobs = make_jobs(ctx, n, depth)
-    real = iso.map_isolated(child, jobs, timeout=120.0)
-    judge(res, jobs, real)
+    done = 0
+    while done < n:
+        # in chunks: the parent stays small (cheap forks) and every chunk is one driver batch
+        k = min(100, n - done)
+        jobs = make_jobs(ctx, k, depth, first=done)
+        real = iso.map_isolated(child, jobs, timeout=120.0)
+        judge(res, jobs, real)
+        done += k
     res.extra["trees_validated"] = res.programs
     res.extra["module_sets"] = n
     return res
